@@ -97,6 +97,10 @@ def current : Variant :=
 /-- extracted from the live code: the literal list in `apply_propagation_rules`. -/
 structure Params where
   propOps : List String
+  /-- `_propagate_from_state` writes into the SYMBOL table only for SYMBOL predecessors (the repair
+  of the state-id-as-symbol-id collision); `false` = the code before the repair, which also wrote
+  the id of a containing STATE (STATE_INCLUSION predecessor) into the SYMBOL table -/
+  stateUpSymOnly : Bool := true
 deriving Repr, Inhabited
 
 /-- Python truthiness of an optional string attribute (`None` and `""` are falsy). -/
